@@ -113,14 +113,14 @@ func handle(in []byte) []byte {
 			select {
 			case <-c.Closed:
 				rs.Closed = true
-			case <-time.After(60 * time.Second): // earlier requests of the stream (thousands of subscriptions) may still be processed
+			case <-time.After(150 * time.Second): // earlier requests of the stream (thousands of subscriptions) may still be processed
 			}
 		}
 		c.Conn.Close()
 		select {
 		case <-c.Closed:
-		case <-time.After(20 * time.Second):
-			rs.Canary = "the attacked connection's goroutine did not terminate within 20 s after the client went away"
+		case <-time.After(120 * time.Second):
+			rs.Canary = "the attacked connection's goroutine did not terminate within 120 s after the client went away"
 		}
 	case "clients":
 		rs.Canary = e.concurrentClients(rq.Data)
